@@ -82,6 +82,8 @@ def evalTmpl (t : J) (env : Bs) : Except LErr J :=
     | some (.str "echo") => .ok (.obj env)
     -- `event.verifmark = 1; Env.bindings`: the script marks ITS OWN copy of the event (every action execution gets one)
     | some (.str "mutevent") =>
+      -- (a pattern may have bound `?event` itself; bound to null the script sees `undefined` and the assignment throws)
+      if env.get? "event" == some .null then .error "script" else
       .ok (.obj (env.map (fun kv => if kv.1 == "event" then
         (match kv.2 with | .obj e => (kv.1, J.obj (Obj.set e "verifmark" (.num 1))) | _ => kv) else kv)))
     -- `Env.AddFact(id, fact)`: the value is the id; the effect on the location is applied by the caller of the
